@@ -120,10 +120,11 @@ Step ==
   /\ LET hi == IF l + Batch - 1 > N THEN N ELSE l + Batch - 1
          bad == {i \in l..hi : BadOf(i) # {}}
          dr == {i \in l..hi : ~Conf(Log[i])}
-     IN /\ \A i \in bad : PrintT(<<"VIOL", i, BadOf(i)>>)
-        /\ \A i \in dr : PrintT(<<"DRIFT", i, Log[i].k>>)
-        /\ nviol' = nviol + Cardinality({q \in bad \X (Names \cap Checked) : q[2] \in BadOf(q[1])})
-        /\ ndrift' = ndrift + Cardinality(dr)
+     IN \* the reports are evaluated inside the right-hand sides (as plain expressions): a quantifier that is itself a conjunct of the
+        \* action is expanded recursively by TLC and overflows the Java stack for a batch of several hundred failing lines
+        /\ nviol' = nviol + (IF \A i \in bad : PrintT(<<"VIOL", i, BadOf(i)>>)
+                             THEN Cardinality({q \in bad \X (Names \cap Checked) : q[2] \in BadOf(q[1])}) ELSE 0)
+        /\ ndrift' = ndrift + (IF \A i \in dr : PrintT(<<"DRIFT", i, Log[i].k>>) THEN Cardinality(dr) ELSE 0)
         /\ cnt' = [c \in Counters |-> cnt[c] + Cardinality({i \in l..hi : Hit(c, Log[i])})]
         /\ l' = hi + 1
 
